@@ -123,7 +123,15 @@ class World:
     def describe(self):
         return dict(crystal=self.name, supercell=self.smat, pool_seed=self.seed)
 
-    def new_phonopy(self):
+    FSF = 1.1
+
+    def new_phonopy(self, fsf=False):
+        import warnings
+
+        if fsf:   # the deprecated constructor option
+            with warnings.catch_warnings():
+                warnings.simplefilter("ignore")
+                return gen.make_phonopy(self.cell, np.diag(self.smat), pmat="P", frequency_scale_factor=self.FSF)
         return gen.make_phonopy(self.cell, np.diag(self.smat), pmat="P")
 
     # ---- evaluation of the model's value terms with the real routines
@@ -150,6 +158,8 @@ class World:
             from phonopy.interface.fc_calculator import get_fc2
 
             r = get_fc2(ph0.supercell, self.ds_term(x), primitive=ph0.primitive, symmetry=ph0.symmetry)
+        elif tag == 6:
+            r = self.fc_term(x) * self.FSF ** 2
         else:
             raise common.Broken("model-term", "force-constant term with tag %d" % tag)
         self._memo[key] = r
@@ -180,12 +190,12 @@ class World:
         return r
 
     # ---- a freshly constructed object
-    def fresh(self, fc, nac, masses, gv):
-        key = (np.asarray(fc).tobytes(), None if nac is None else (np.asarray(nac["born"]).tobytes(), np.asarray(nac["dielectric"]).tobytes(),
+    def fresh(self, fc, nac, masses, gv, fsf=False):
+        key = (fsf, np.asarray(fc).tobytes(), None if nac is None else (np.asarray(nac["born"]).tobytes(), np.asarray(nac["dielectric"]).tobytes(),
                float(nac["factor"]), nac.get("method", "gonze")), np.asarray(masses).tobytes(), gv)
         if key in self._fresh:
             return self._fresh[key]
-        p = self.new_phonopy()
+        p = self.new_phonopy(fsf)
         p.masses = np.array(masses)
         p.force_constants = np.array(fc, dtype="double", order="C")
         if nac is not None:
@@ -221,8 +231,8 @@ def op_text(op):
     return k
 
 
-def history_line(m0, ops):
-    return "run %s ; " % ("-" if m0 is None else str(m0)) + " ; ".join(op_text(o) for o in ops)
+def history_line(m0, ops, fsf=False):
+    return "%s %s ; " % ("runfsf" if fsf else "run", "-" if m0 is None else str(m0)) + " ; ".join(op_text(o) for o in ops)
 
 
 def handles(op):
@@ -260,12 +270,13 @@ class Problem(Exception):
     pass
 
 
-def run_impl(w, ops, viol):
+def run_impl(w, ops, viol, fsf=False):
     """Replay `ops` on a real Phonopy object.  Returns per-step observations.
     `viol(site, klass, what, step)` is called for every failure of the property itself."""
     from phonopy.harmonic.dynamical_matrix import DynamicalMatrixGL, DynamicalMatrixWang
 
-    ph = w.new_phonopy()
+    ph = w.new_phonopy(fsf)
+    last_freq = None   # frequencies of the last query, valid while only no-op setters were applied since
     objs = []          # python object created / handed out by each step
     kinds = []         # its kind
     snaps = {}         # step -> snapshot of caller-created content (no_alias_in)
@@ -333,7 +344,13 @@ def run_impl(w, ops, viol):
                 else:
                     ph.nac_params = objs[op[1]]
             elif k == "setmasses":
-                ph.masses = w.mass_pool[op[1]]
+                newm = w.start_masses if op[1] == 1000 else w.mass_pool[op[1]]
+                if not (ph.masses is not None and newm is not None and close(ph.masses, newm, 0.0)):
+                    last_freq = None
+                noop = last_freq is not None
+                ph.masses = newm
+                if noop:
+                    k = "setmasses-noop"
             elif k == "setds":
                 if op[1] is None:
                     ph.dataset = None
@@ -376,12 +393,22 @@ def run_impl(w, ops, viol):
                     else:
                         ph.run_qpoints(QS)
                         out = ("ph", ph.qpoints.frequencies.copy(), None)
+                        # ---- a setter given the value the object already has must be a no-op
+                        if last_freq is not None and not close(out[1], last_freq, TOL):
+                            viol("Phonopy.masses setter", "noop-setter-changes-phonons",
+                                 "ph.masses = ph.masses changed the frequencies by %.3g THz%s" % (
+                                     float(np.abs(out[1] - last_freq).max()), " (frequency_scale_factor set: the force constants are scaled again at every rebuild of the dynamical matrix)" if fsf else ""), si)
+                        last_freq = out[1]
                     # ---- the property itself: a freshly constructed object answers alike
-                    fr = w.fresh(ph.force_constants, ph.nac_params, ph.masses, what == "gv")
+                    fr = w.fresh(ph.force_constants, ph.nac_params, ph.masses, what == "gv", fsf)
                     bad = not close(out[1], fr[0], TOL) or (what == "gv" and not close(out[2], fr[1], 1e-5))
                     if bad:
                         d = float(np.abs(out[1] - fr[0]).max())
-                        if tainted:
+                        if fsf and not tainted:
+                            viol("Phonopy.run_qpoints", "frequency-scale-factor-compounds",
+                                 "constructed with frequency_scale_factor: phonons differ by %.3g THz from a fresh object constructed the same way and "
+                                 "given ph.force_constants (the scaled array is stored back and scaled again)" % d, si)
+                        elif tainted:
                             viol("Phonopy.run_qpoints", "stale-after-aliased-mutation",
                                  "after the caller mutated an array the object holds by reference, phonons differ from a fresh object by %.3g THz" % d, si)
                         else:
@@ -452,6 +479,8 @@ def run_impl(w, ops, viol):
             out = ("err", type(e).__name__)
         objs.append(obj)
         kinds.append(kind)
+        if k not in ("q", "setmasses-noop", "new", "copy"):
+            last_freq = None
 
         # ---- arrays handed in by the caller are not modified by API calls
         if not api:
@@ -558,6 +587,23 @@ def masses_of(w, tok):
     if tok == "-":
         return None
     return w.start_masses if int(tok) == 1000 else w.mass_pool[int(tok)]
+
+
+def noop_history(rng, w, cls):
+    """[..., q freq, masses = the masses it has, q freq]"""
+    ops = [("new", "fc", rng.randrange(3), 1), ("setfc", 0)]
+    if cls != "plain":
+        ops += [("new", "nac", 1 if cls == "wang" else 0, 1), ("setnac", len(ops))]
+    cur = 1000
+    if rng.random() < 0.5 or w.start_masses is None:
+        cur = rng.randrange(3)
+        ops.append(("setmasses", cur))
+    if rng.random() < 0.5:
+        ops.append(("sym", 1))
+    ops += [("q", "freq"), ("setmasses", cur), ("q", "freq")]
+    if rng.random() < 0.5:
+        ops += [("setmasses", cur), ("setmasses", cur), ("q", "freq")]
+    return ops
 
 
 def parse_model(line):
@@ -804,11 +850,11 @@ def random_history(rng, w, length):
 # shrinking (delta debugging on the op list)
 # --------------------------------------------------------------------------
 
-def shrink(w, ops, site, klass, budget=60):
+def shrink(w, ops, site, klass, budget=60, fsf=False):
     def fails(cand):
         hit = []
         try:
-            run_impl(w, cand, lambda s, c, what, si: hit.append((s, c)))
+            run_impl(w, cand, lambda s, c, what, si: hit.append((s, c)), fsf=fsf)
         except Exception:
             return False
         return (site, klass) in hit
@@ -862,12 +908,14 @@ def _work(chunk):
 
     warnings.simplefilter("ignore")
     res = []
-    for idx, desc, ops, ml in chunk:
+    for idx, desc, ops, ml, fsf in chunk:
         w = get_world(desc)
         hits = []
-        impl = run_impl(w, ops, lambda s, c, what, si: hits.append((s, c, what, si)))
+        impl = run_impl(w, ops, lambda s, c, what, si: hits.append((s, c, what, si)), fsf=fsf)
         mis = []
-        if ml == "bad-op":
+        if ml is None:
+            pass   # model branch not applicable to this tree (see fsf_model_applicable)
+        elif ml == "bad-op":
             mis.append((-1, "model rejected the history"))
         else:
             compare(w, None, ops, impl, parse_model(ml), lambda what, si: mis.append((si, what)))
@@ -875,8 +923,8 @@ def _work(chunk):
     return res
 
 
-def process(run, cases, lines, outl, nproc):
-    jobs = [(i, (c[0].name, c[0].smat, c[0].seed), c[1], outl[i]) for i, c in enumerate(cases)]
+def process(run, cases, lines, outl, nproc, fsf_ok=True):
+    jobs = [(i, (c[0].name, c[0].smat, c[0].seed), c[1], outl[i] if (fsf_ok or not c[4]) else None, c[4]) for i, c in enumerate(cases)]
     if nproc <= 1:
         return _work(jobs)
     import multiprocessing as mp
@@ -955,16 +1003,24 @@ def main(run):
             ctor_hits.append((w, "Phonopy(unitcell, supercell_matrix=A) keeps a view of the caller's ndarray A: A[0,0] += 1 changes ph.supercell_matrix"))
         run.count("constructor supercell_matrix aliasing checked", section="oracle")
 
+    # ---- does the implementation store the scaled force constants back (the pinned code does)?
+    # The model's `fsf` branch describes exactly that; on a tree where this is repaired the branch
+    # is not applicable and the frequency_scale_factor histories are judged by the oracle alone.
+    pfsf = worlds[0].new_phonopy(True)
+    pfsf.force_constants = worlds[0].fc_pool[0].copy()
+    fsf_model_applicable = not close(pfsf.force_constants, worlds[0].fc_pool[0])
+    run.cov["fsf_model_applicable"] = bool(fsf_model_applicable)
+
     cases = []   # (world, ops, tag, word)
     w0 = worlds[0]
     for cls in ("plain", "wang", "gl"):
         pre = prefix_for(cls)
         syms = symbols(cls, len(pre), full=False)
-        maxlen = 4 if (thorough and cls != "gl") else 3
+        maxlen = 4 if thorough else 3
         names = sorted(syms)
         for L in range(0, maxlen + 1):
             for word in itertools.product(names, repeat=L):
-                cases.append((w0, expand(pre, word, syms), "exh-%s-%d" % (cls, L), word))
+                cases.append((w0, expand(pre, word, syms), "exh-%s-%d" % (cls, L), word, False))
         # the wider alphabet (views, re-handing, copy, getter mutation, NAC dict mutation): all words of length <= 2
         syms2 = symbols(cls, len(pre), full=True)
         names2 = sorted(syms2)
@@ -972,16 +1028,25 @@ def main(run):
             for word in itertools.product(names2, repeat=L):
                 if all(s in syms for s in word):
                     continue
-                cases.append((w0, expand(pre, word, syms2), "exh2-%s-%d" % (cls, L), word))
-    nrand = 600 if thorough else 90
+                cases.append((w0, expand(pre, word, syms2), "exh2-%s-%d" % (cls, L), word, False))
+    nrand = 1500 if thorough else 90
     for i in range(nrand):
         w = worlds[i % len(worlds)]
-        cases.append((w, random_history(rng, w, rng.randint(4, 30)), "random", None))
+        cases.append((w, random_history(rng, w, rng.randint(4, 30)), "random", None, False))
+    # setters given the current value are no-ops; also with the deprecated frequency_scale_factor
+    for i in range(60 if thorough else 12):
+        w = worlds[i % 2]
+        cls = ("plain", "wang", "gl")[i % 3]
+        cases.append((w, noop_history(rng, w, cls), "noop-setter", None, False))
+        cases.append((w, noop_history(rng, w, cls), "noop-setter-fsf", None, True))
+    for i in range(40 if thorough else 6):
+        w = worlds[i % 2]
+        cases.append((w, random_history(rng, w, rng.randint(4, 16)), "random-fsf", None, True))
     run.cov["exhaustive_words"] = sum(1 for c in cases if c[2].startswith("exh"))
     run.cov["exhaustive"] = False
 
     # ---- model side (cheap): one driver call for all histories
-    lines = [history_line(None if c[0].start_masses is None else 1000, c[1]) for c in cases]
+    lines = [history_line(None if c[0].start_masses is None else 1000, c[1], c[4]) for c in cases]
     t0 = time.time()
     outl = common.lean_run_driver("C15", lines)
     run.cov["model_wall_s"] = round(time.time() - t0, 1)
@@ -993,22 +1058,22 @@ def main(run):
     t0 = time.time()
     nproc = int(os.environ.get("VERIF_PROCS", "0") or 0) or max(1, min(8, (os.cpu_count() or 2) // 2))
     try:
-        results = process(run, cases, lines, outl, nproc)
+        results = process(run, cases, lines, outl, nproc, fsf_model_applicable)
     except (OSError, RuntimeError, ImportError) as e:  # no process pool available: run in-process
         run.cov["pool_error"] = repr(e)[:200]
-        results = process(run, cases, lines, outl, 1)
+        results = process(run, cases, lines, outl, 1, fsf_model_applicable)
     run.cov["impl_wall_s"] = round(time.time() - t0, 1)
     run.cov["processes"] = nproc
 
     found = {}  # (site, class) -> first (world, ops, what, step)
     nsteps = nbad = 0
-    for (w, ops, tag, word), (idx, hits, mis), line, ml in zip(cases, results, lines, outl):
+    for (w, ops, tag, word, fsf), (idx, hits, mis), line, ml in zip(cases, results, lines, outl):
         for (s, c, what, si) in hits:
             run.count("%s / %s" % (s, c), section="oracle")
             if (s, c) not in found or len(ops) < len(found[(s, c)][1]):
-                found[(s, c)] = (w, ops, what, si)
+                found[(s, c)] = (w, ops, what, si, fsf)
         nstate = sum(1 for o in ops if o[0] not in ("q", "new"))
-        run.case((w.name, tuple(ops)), nontrivial=nstate >= 4)
+        run.case((w.name, fsf, tuple(ops)), nontrivial=nstate >= 4)
         run.count(tag)
         run.count("world %s" % w.name)
         for o in ops:
@@ -1026,9 +1091,9 @@ def main(run):
     run.cov["correspondence"]["histories_disagreeing"] = nbad
     run.cov["states"] = nsteps
 
-    for (s, c), (w, ops, what, si) in sorted(found.items()):
-        small = shrink(w, ops[: si + 1], s, c, budget=10 if not thorough else 60)
-        run.violation(s, c, what, dict(world=w.describe(), history=[op_text(o) for o in small],
+    for (s, c), (w, ops, what, si, fsf) in sorted(found.items()):
+        small = shrink(w, ops[: si + 1], s, c, budget=10 if not thorough else 60, fsf=fsf)
+        run.violation(s, c, what, dict(world=w.describe(), frequency_scale_factor=World.FSF if fsf else None, history=[op_text(o) for o in small],
                                        masses0=None if w.start_masses is None else "from symbols",
                                        note="ops as in lean/Drivers/C15.lean; value 7k = entry k of the pools of World(crystal, supercell, pool_seed) in harness/props/c15.py"))
 
